@@ -180,8 +180,9 @@ TREES_QUICK.append(('orig a;?b}?c over the alphabet with TAB (blanks after a ter
 TREES_QUICK.append(('concat[orig ?/,sms(b -> o.js line 2)]', CC(O('?\n'), SM('b', 'AACA', ('o.js',)))))
 
 C13_QUICK += [
-    ('uncached:cached(concat[rawstr,orig of line breaks only]) after map(columns), then lines-only', CA(CC(RS('!'), O('\n\n'))), 'uncached', dict(history=['map1'])),
-    ('uncached:cached(concat[rawstr,orig of line breaks only]) after map(lines), then columns', CA(CC(RS('!'), O('\n'))), 'uncached', dict(history=['map0'])),
+    ('uncached:cached(concat[rawstr,orig of line breaks only]) after map(columns), then the lines-only MAP first', CA(CC(RS('!'), O('\n\n'))), 'uncached', dict(history=['map1'], what=['map0', 'map1', 'c0f0', 'c1f0', 'source'])),
+    ('uncached:cached(concat[rawstr,orig of line breaks only]) after map(lines), then the columns MAP first', CA(CC(RS('!'), O('\n'))), 'uncached', dict(history=['map0'], what=['map1', 'map0', 'c1f0', 'c0f0', 'source'])),
+    ('uncached:cached(orig a;//?) after map(columns), then the lines-only MAP first', CA(O('a;\n\n?')), 'uncached', dict(history=['map1'], what=['map0', 'c0f0', 'map1', 'c1f0', 'source'])),
     ('uncached:concat[cached(concat[orig a;,rawstr]),orig c/ c] after map (cache filled by the first streaming, replayed by the second)', CC(CA(CC(O('a;'), RS('!'))), O('c\n', 'c.js')), 'uncached', dict(history=['map1'])),
     ('uncached:concat[cached(concat[orig ?;,rawstr]),orig c c] after a stream', CC(CA(CC(O('?;'), RS('!'))), O('c', 'c.js')), 'uncached', dict(history=['c1f0'])),
     ('unwrap:concat[replace(sms(ab/ trailing newline, zero-width last segment),[]),orig c b]', CC(RP(SM('ab\n', 'AAAA;?A?A', ('o.js',))), O('c', 'b.js')), 'unwrap'),
@@ -605,6 +606,9 @@ def c13_jobs(tier, seed):
 # properties must hold on it as well. Each tree is observed AFTER a history that fills the cache; the ones marked rope='real'
 # interpret rope.rs itself, because the replay derives the generated end position from Rope::lines / Rope::len.
 CACHED_QUICK = [
+    ('cached(orig a;//?) after map(columns): lines-only MAP observed first (a blank line is mapped only line by line)', CA(O('a;\n\n?')), dict(history=['map1'], what=['map0', 'c0f0', 'c0f1', 'map1', 'c1f0', 'source'])),
+    ('cached(concat[rawstr,orig of line breaks only]) after map(columns)=None: lines-only MAP observed first', CA(CC(RS('!'), O('\n\n'))), dict(history=['map1'], what=['map0', 'c0f0', 'map1', 'c1f0', 'source'])),
+    ('cached(replace(sms 2 segments on a line,[sym del])) after a columns stream: lines-only MAP observed first', CA(RP(SM('abcd', 'AAIA,EAEA', ('o.js',)), (Q, Q, ''))), dict(history=['c1f0'], what=['map0', 'c0f0', 'map1', 'c1f0', 'source'])),
     ('concat[cached(concat[orig x/??,orig c? b]),orig z c] (real rope.rs) after map', CC(CA(CC(O('x\n??'), O('c?', 'b.js'))), O('z', 'c.js')), dict(history=['map1'], rope='real')),
     ('concat[rawstr,cached(concat[orig a?;b,rawstr2]),rawstr /,orig c?; b] after a stream of the parent', CC(RS('!'), CA(CC(O('a?;b'), RS('!!'))), RS('\n'), O('c?;', 'b.js')), dict(history=['c1f0'])),
     ('cached(replace(orig abcd,[sym OUT],[sym in])) after stream', CA(RP(O('abcd'), (Q, Q, 'OUT'), (Q, Q, 'in'))), dict(history=['c1f0'])),
